@@ -2013,7 +2013,10 @@ func (t *tr) block(b []ast.Stmt, tail string, ind string) string {
 		// and runs the first that matches (default when none does, wherever it stands); `fallthrough` continues with the next
 		// clause's body.
 		if x.Init != nil {
-			failf(s, "switch statements with an init statement are not supported")
+			// `switch init; tag { … }`: the init statement, then the switch (its names stay visible afterwards, as for `if init; c`)
+			y := *x
+			y.Init = nil
+			return t.block(append([]ast.Stmt{x.Init, &y}, rest...), tail, ind)
 		}
 		n := len(x.Body.List)
 		eff := make([][]ast.Stmt, n)
